@@ -212,6 +212,14 @@ def apply_edit(draw, s, kind, uid, protected=None):
             return None
         n = draw(st.sampled_from(plain_objs))
         f = draw(st.sampled_from(types[n]["fields"]))
+        if kind == "argument-default" and draw(st.booleans()):
+            # prefer a non-null argument that has a default (`a: Int! = 1`): taking the default away makes it required
+            cands = [(tn, fd, a) for tn in plain_objs for fd in types[tn]["fields"] for a in fd.get("args") or []
+                     if "default" in a and a["type"].endswith("!") and GS.named(GS.parse_t(a["type"])) in GS.BUILTIN_SCALARS]
+            if cands:
+                n, f, a = draw(st.sampled_from(cands))
+                del a["default"]
+                return out(["FieldArgumentDefaultValueChange"], [n, f["name"], a["name"]], True)
         f.setdefault("args", [])
         if kind.startswith("add-"):
             req = kind == "add-required-argument"
@@ -418,10 +426,9 @@ def _default_edit(draw, s, a, out, classes, tokens):
     if GS.named(t) not in GS.BUILTIN_SCALARS:
         return None
     if "default" in a and draw(st.booleans()):
-        if t[0] == "nn":
-            return None
         del a["default"]
-        return out(classes, tokens, False)
+        # without its default a non-null argument / input field becomes required: documents which left it out break
+        return out(classes, tokens, t[0] == "nn")
     new = GS.gen_nonnull(draw, s, t, 1)
     if t[0] != "nn" and draw(st.integers(0, 3)) == 0:
         new = None    # an explicit `= null` default is a default: resolvers receive None where the key was absent
